@@ -1,6 +1,6 @@
 (* C06 correspondence cases: a mapping set, two namespaces, a super-class provider and a list
    of queries, each with what the implementation answered. *)
-From FB Require Export C06.Model.
+From FB Require Export C06.Model C06.ModelT.
 From FB Require Import C06.Theory2 C06.Theory3 C06.Theory4 C06.Theory5.
 
 Definition key3 := (str * (str * str))%type.   (* class, (name, descriptor) *)
@@ -16,7 +16,9 @@ Inductive query :=
 | QMethod (o : str) (k : key) (r : res key)                   (* map_method / map_method_name_and_desc *)
 | QFieldRef (o : str) (k : key) (r : res key3)                (* map_field_ref *)
 | QMethodRef (o : str) (k : key) (r : res key3)               (* map_method_ref (class may be an array) *)
-| QMethodRefObj (o : str) (k : key) (r : res key3).           (* map_method_ref_obj *)
+| QMethodRefObj (o : str) (k : key) (r : res key3)            (* map_method_ref_obj *)
+| QClassR (c : str) (r : res str)                             (* map_class of an implementor that may fail *)
+| QClassFailR (c : str) (r : res (option str)).               (* map_class_fail of such an implementor *)
 
 (* one member query there and back: field / method, inside = the harness' own evaluation of the
    hypotheses of C06_roundtrip_inherited says the query is inside them *)
@@ -27,6 +29,12 @@ Inductive case :=
     (* map_desc through a hand-written ARemapper whose map_class_fail is the table T *)
 | CA (M : mappings) (from to : N) (qs : list query)
     (* Mappings::remapper_a(from, to) and queries against it *)
+| CT (T : atable) (bad : list str) (qs : list query) (ps : list inh) (ps' : res (list inh))
+    (* round 5: the traits as such.  A hand-written ARemapper (map_class_fail = Err on the names of bad, else the
+       first pair of T), wrapped in ARemapperAsBRemapper: every default method of ARemapper and BRemapper answered
+       through the trait model (ModelT.v), with Err handed on; ps' = JarSuperProv::remap(that remapper, ps) *)
+| CN (M : mappings) (from to : N) (qs : list query)
+    (* round 5: Mappings::remapper_b(from, to, NoSuperClassProvider::new()) and queries against it *)
 | CB (hyp coh : bool) (M : mappings) (from to : N) (ps : list inh) (qa : list query) (built : bool) (qs : list query)
      (ps' : list inh) (rts : list rtq).
     (* ps: the entry lists of the Vec<JarSuperProv>, one list per provider (the search sees their
@@ -45,6 +53,21 @@ Inductive case :=
 Definition okey_eqb := opt_eqb key_eqb.
 Definition key3_eqb (a b : key3) : bool := str_eqb (fst a) (fst b) && key_eqb (snd a) (snd b).
 
+(* any implementor, through the default methods of the traits (ModelT.v) *)
+Definition check_t (mcf : mcf_t) (mmf : mmf_t) (q : query) : bool :=
+  match q with
+  | QClass c r => res_eqb str_eqb (t_map_class mcf c) (Ok r)
+  | QClassFail c r => res_eqb (opt_eqb str_eqb) (mcf c) (Ok r)
+  | QClassR c r => res_eqb str_eqb (t_map_class mcf c) r
+  | QClassFailR c r => res_eqb (opt_eqb str_eqb) (mcf c) r
+  | QClassAny c r => res_eqb str_eqb (t_map_class_any mcf c) r
+  | QDesc d r => res_eqb str_eqb (t_map_desc mcf d) r
+  | QFieldFail o k r | QMethodFail o k r => res_eqb okey_eqb (mmf o k) r
+  | QField o k r | QMethod o k r => res_eqb key_eqb (t_map_member mcf mmf o k) r
+  | QFieldRef o k r | QMethodRefObj o k r => res_eqb key3_eqb (t_map_member_ref mcf mmf o k) r
+  | QMethodRef o k r => res_eqb key3_eqb (t_map_method_ref mcf mmf o k) r
+  end.
+
 Definition check_a (T : atable) (q : query) : bool :=
   match q with
   | QClass c r => str_eqb (a_map_class T c) r
@@ -55,7 +78,8 @@ Definition check_a (T : atable) (q : query) : bool :=
   | QFieldFail _ _ r | QMethodFail _ _ r => res_eqb okey_eqb (Ok None) r
   | QField _ k r | QMethod _ k r =>
       res_eqb key_eqb (match a_map_desc T (snd k) with Ok d => Ok (fst k, d) | Err => Err end) r
-  | _ => false
+  (* its *_ref methods: through the default methods of the traits *)
+  | _ => check_t (a_mcf T) no_members q
   end.
 
 Definition check_b (R : bremap) (I : inh) (q : query) : bool :=
@@ -71,6 +95,8 @@ Definition check_b (R : bremap) (I : inh) (q : query) : bool :=
   | QFieldRef o k r => res_eqb key3_eqb (map_field_ref R I o k) r
   | QMethodRef o k r => res_eqb key3_eqb (map_method_ref R I o k) r
   | QMethodRefObj o k r => res_eqb key3_eqb (map_method_ref_obj R I o k) r
+  | QClassR c r => res_eqb str_eqb (Ok (b_map_class R c)) r
+  | QClassFailR c r => res_eqb (opt_eqb str_eqb) (Ok (b_map_class_fail R c)) r
   end.
 
 (* a hand-written remapper with `map_class_fail c = first pair of T with key c` (the harness'
@@ -120,6 +146,14 @@ Definition check (c : case) : bool :=
   match c with
   | CDesc T d r => res_eqb str_eqb (map_desc (tbl_map_class T) d) r
   | CA M from to qs => forallb (check_a (remapper_a M (N.to_nat from) (N.to_nat to))) qs
+  | CT T bad qs ps ps' =>
+      forallb (check_t (tbl_mcf T bad) no_members) qs &&
+      res_eqb (list_eqb inh_eqb) (remap_provs_r (t_map_class (tbl_mcf T bad)) ps) ps'
+  | CN M from to qs =>
+      match remapper_b M (N.to_nat from) (N.to_nat to) with
+      | Err => false
+      | Ok R => forallb (check_b R no_supers) qs
+      end
   | CB hyp coh M from to ps qa built qs ps' rts =>
       let ih := concat ps in
       forallb (check_a (remapper_a M (N.to_nat from) (N.to_nat to))) qa &&
